@@ -400,10 +400,13 @@ def find_stage_prepend_append(
         return (prepend, None)
 
     logger.debug("Total PE size: %u", size)
-    fh.seek(mz_offset + size)
-
-    # we limit the append size to 1024, just in case.
-    append = fh.read(1024) or None
+    try:
+        fh.seek(mz_offset + size)
+        # we limit the append size to 1024, just in case.
+        append = fh.read(1024) or None
+    except (OSError, OverflowError, ValueError):
+        # corrupt section sizes, the total is a position that the file object cannot even seek to
+        return (prepend, None)
     logger.debug("stage append: %r", append)
 
     # remove padding
